@@ -819,6 +819,20 @@ def engines_for(prop):
     return out
 
 
+def demote_conformance_only(prop, res):
+    """A scenario whose ONLY clauses are Mismatch_* says: the implementation no longer behaves like the model, but no
+    clause of the property is violated in it.  That is drift (reported, recorded in the evidence), not a verdict: a
+    behaviour-preserving-for-the-property change of the crate must not raise an alarm."""
+    keep = []
+    for v in res.viol:
+        if v["clauses"] and all(c.startswith("Mismatch_") for c in v["clauses"]):
+            res.notes.append("DRIFT (conformance only, no property clause): scenario %s: %s" % (v["scn"], ",".join(v["clauses"])))
+            print("DRIFT: scenario %s differs from the model (%s) without violating a clause of %s" % (v["scn"], ",".join(v["clauses"]), prop))
+        else:
+            keep.append(v)
+    res.viol = keep
+
+
 def apply_known(prop, res):
     """Downgrade violations that match an *open* known finding (by property + clause + scenario signature)."""
     known = [k for k in load_known() if k.get("property") == prop and k.get("status") == "open"]
@@ -888,6 +902,7 @@ def main():
         else:
             for eng in engines_for(prop):
                 res.merge(eng(prop, tier, seed, work))
+        demote_conformance_only(prop, res)
         apply_known(prop, res)
         level = "model_checking"
         write_evidence(prop, tier, seed, res, level)
